@@ -1385,6 +1385,10 @@ func EvalProgram(progSrc string, files []InputFile, rootSelectors []string, stdo
 			for _, rootCell := range rootCells {
 				var rootVal = rootCell.Value
 
+				// this is the root from here on: exit in a BEGINFILE rule leaves
+				// it as the value that -o writes
+				ev.root = rootCell
+
 				// run the begin file rules
 				for _, rule := range ev.beginFileRules {
 					ev.ruleRoot = rootCell
@@ -1402,7 +1406,6 @@ func EvalProgram(progSrc string, files []InputFile, rootSelectors []string, stdo
 				}
 
 				// run the rules
-				ev.root = rootCell
 				if err := ev.evalPatternRules(ev.patternRules); err != nil {
 					if err == errExit {
 						return &ev, nil
